@@ -104,6 +104,27 @@ def run(chk, tier):
         rd = [x for c, x in H.calls(body) if c and c.endswith("read_dataset_with_ts") and "instance_buffer" in H.show(x[3][0], 4)]
         ok = len(rd) == 1 and "instance_buffer" in H.show(rd[0][3][0], 4) and "get(ts)" in H.show(rd[0][3][1], 5)
         chk.expect(ok, "meta-from-negotiation", mod, "dataset-read-with-negotiated-ts", "read_dataset_with_ts(instance_buffer, registry.get(ts))", [H.show(x, 5)[:120] for x in rd])
+    # the fragments of a data set are put together in arrival order: (Data, not last) appends; (Command, last) handles the command and
+    # clears the buffer; (Data, last) appends and then reads the object from the buffer -- in both store loops
+    chk.rule("reassembly-dispatch", "store loops: `value_type == Data && !is_last` -> instance_buffer.append(data); `== Command && is_last` -> command handling, buffer cleared; "
+             "`== Data && is_last` -> append, then the object is read from instance_buffer")
+    import re as _re
+    for mod in ("store_sync", "store_async"):
+        h = fx.find_hir("dicom_storescp", lambda p, mod=mod: p.startswith(f"dicom_storescp::{mod}::inner"), kind="bin")[0]
+        chain = [x for x in H.walk(h["body"]) if H.kind(x) == "if" and "data_value.value_type" in H.show(x[2], 6) and "is_last" in H.show(x[2], 6)]
+        conds = [_re.sub(r"dicom_ul::pdu::", "", H.show(x[2], 6)) for x in chain]
+        want_c = ["((data_value.value_type Eq PDataValueType::Data) And Not(data_value.is_last))",
+                  "((data_value.value_type Eq PDataValueType::Command) And data_value.is_last)",
+                  "((data_value.value_type Eq PDataValueType::Data) And data_value.is_last)"]
+        chk.expect(conds == want_c, "reassembly-dispatch", mod, "conditions", want_c, conds, loc=C.fn_loc(h))
+        if len(chain) == 3:
+            def acts(b):
+                return [y[3] for y in H.walk(b) if H.kind(y) == "mcall" and "instance_buffer" in H.show(y[4], 3) and y[3] in ("append", "clear", "extend", "extend_from_slice", "as_slice", "truncate", "drain", "push")]
+            a0, a1, a2 = acts(chain[0][3]), acts(chain[1][3]), acts(chain[2][3])
+            chk.expect(a0 == ["append"] and a1 == ["clear"] and a2[:2] == ["append", "as_slice"], "reassembly-dispatch", mod, "buffer-actions",
+                       {"data,more": ["append"], "command,last": ["clear"], "data,last": ["append", "as_slice", "..."]}, {"data,more": a0, "command,last": a1, "data,last": a2}, loc=C.fn_loc(h))
+            args = [H.show(y[5][0], 4) for b in (chain[0][3], chain[2][3]) for y in H.walk(b) if H.kind(y) == "mcall" and y[3] == "append" and "instance_buffer" in H.show(y[4], 3)]
+            chk.expect(args == ["&data_value.data", "&data_value.data"], "reassembly-dispatch", mod, "appended-bytes", "the fragment's own data", args, loc=C.fn_loc(h))
     # "each stored file contains the received data set": the sink replaces whatever was stored under that name before
     from . import shared
     shared.file_create_truncates(chk, fx, "stored-file-replaced")
